@@ -168,13 +168,13 @@ impl AsCteXml for Components {
         let needsdatastring = {
             let mut res = vec![];
             if let Some(nd) = &needs.ACS {
-                res.push(format!("<Demanda><Servicio>ACS</Servicio><Valores>{}</Valores>", <Self as AsCteXml>::format_values_2f(nd)))
+                res.push(format!("<Demanda><Servicio>ACS</Servicio><Valores>{}</Valores></Demanda>", <Self as AsCteXml>::format_values_2f(nd)))
             };
             if let Some(nd) = &needs.CAL {
-                res.push(format!("<Demanda><Servicio>CAL</Servicio><Valores>{}</Valores>", <Self as AsCteXml>::format_values_2f(nd)))
+                res.push(format!("<Demanda><Servicio>CAL</Servicio><Valores>{}</Valores></Demanda>", <Self as AsCteXml>::format_values_2f(nd)))
             };
             if let Some(nd) = &needs.REF {
-                res.push(format!("<Demanda><Servicio>REF</Servicio><Valores>{}</Valores>", <Self as AsCteXml>::format_values_2f(nd)))
+                res.push(format!("<Demanda><Servicio>REF</Servicio><Valores>{}</Valores></Demanda>", <Self as AsCteXml>::format_values_2f(nd)))
             };
             res.join("\n")
         };
